@@ -628,3 +628,83 @@ Definition example_in_domain : node :=
 Lemma example_in_domain_ok :
   no_through_first true (layout_doc exactQ 0 0 1000 100000 example_in_domain) = true.
 Proof. vm_compute. reflexivity. Qed.
+
+(* ------------------------------------------------------------------ the width equation, for every box of a document *)
+
+(* every box satisfies the seven-term equation against its containing block's width
+   (the used right margin being the one of C10_width_rules) *)
+Fixpoint width_eq_tree (cbw : Q) (b : lbox) : Prop :=
+  match b with
+  | LBox u over _ cs =>
+      V (uml u) + ubl u + upl u + V (uw u) + upr u + ubr u + mr_used cbw u over == cbw /\
+      (fix all (l : list lbox) : Prop :=
+         match l with [] => True | c :: r => width_eq_tree (V (uw u)) c /\ all r end) cs
+  end.
+
+Lemma hmm_shape ar u cbw : exists a b c o,
+  handle_min_max_width ar u cbw = (set_margins_w u a b c, o).
+Proof.
+  unfold handle_min_max_width.
+  destruct (blw_shape ar u cbw) as (a1 & b1 & c1 & o1 & E1). rewrite E1.
+  match goal with |- context [if gt_ext ?x ?y then ?A else ?B] => set (r2 := if gt_ext x y then A else B) end.
+  assert (H2 : exists a b c o, r2 = (set_margins_w u a b c, o)).
+  { unfold r2. destruct (gt_ext _ _); [|exists a1, b1, c1, o1; reflexivity].
+    match goal with |- context [block_level_width_ ar ?v cbw] =>
+      destruct (blw_shape ar v cbw) as (a & b & c & o & E); rewrite E end.
+    exists a, b, c, o. reflexivity. }
+  destruct H2 as (a2 & b2 & c2 & o2 & E2). rewrite E2.
+  destruct (Qltb _ _); [|exists a2, b2, c2, o2; reflexivity].
+  match goal with |- context [block_level_width_ ar ?v cbw] =>
+    destruct (blw_shape ar v cbw) as (a & b & c & o & E); rewrite E end.
+  exists a, b, c, o. reflexivity.
+Qed.
+
+Lemma hmm_equation u cbw :
+  let r := handle_min_max_width exactQ u cbw in
+  V (uml (fst r)) + ubl (fst r) + upl (fst r) + V (uw (fst r)) + upr (fst r) + ubr (fst r)
+    + mr_used cbw (fst r) (snd r) == cbw.
+Proof.
+  cbv zeta. pose proof (hmm_spec u cbw) as H.
+  destruct (hmm_shape exactQ u cbw) as (a & b & c & o & E). rewrite E in *.
+  cbn [fst snd ubl upl upr ubr set_margins_w].
+  assert (Eq : forall w t, rules_of cbw u w t ->
+                 wu_ml t + ubl u + upl u + wu_w t + upr u + ubr u + wu_mr t == cbw).
+  { intros w t [Ht _]. exact Ht. }
+  destruct H as (t1 & t2 & H1 & H2 & H3).
+  assert (E2 : wu_ml t2 + ubl u + upl u + wu_w t2 + upr u + ubr u + wu_mr t2 == cbw).
+  { destruct (umaxw u) as [m|]; [destruct (Qltb m (wu_w t1))|]; subst; eauto. }
+  assert (E3 : let t := used_of cbw (set_margins_w u a b c, o) in
+               wu_ml t + ubl u + upl u + wu_w t + upr u + ubr u + wu_mr t == cbw).
+  { cbv zeta. destruct (Qltb (wu_w t2) (uminw u)); [eauto | rewrite H3; exact E2]. }
+  exact E3.
+Qed.
+
+Lemma kids_loop_Forall ar rec cwc (P : lbox -> Prop) :
+  forall cs, (forall c, In c cs -> forall py a, P (r_box (rec c py a))) ->
+  forall first py adj var,
+    (fix all (l : list lbox) : Prop := match l with [] => True | c :: r => P c /\ all r end)
+      (snd (kids_loop ar rec cwc cs first py adj var)).
+Proof.
+  induction cs as [|c r IH]; intros H first py adj var; [exact I|].
+  rewrite kids_loop_cons. cbv zeta. cbn [snd]. split.
+  - apply H. left. reflexivity.
+  - apply IH. intros c' Hc'. apply H. right. exact Hc'.
+Qed.
+
+Theorem width_equation_doc : forall n is_root cbw cbh x y adj,
+  width_eq_tree cbw (r_box (layout_block exactQ n is_root cbw cbh x y adj)).
+Proof.
+  induction n as [s cs IH] using node_ind'.
+  intros is_root cbw cbh x y adj.
+  cbn [layout_block]. unfold finish. cbn [r_box width_eq_tree].
+  unfold prelude.
+  set (u0 := set_vmargins _ _ _).
+  pose proof (hmm_equation u0 cbw) as HE. cbv zeta in HE.
+  set (uo := handle_min_max_width exactQ u0 cbw) in *.
+  split.
+  - cbn [uml ubl upl uw upr ubr umr set_y_h]. unfold mr_used in *.
+    cbn [uml ubl upl uw upr ubr umr set_y_h]. exact HE.
+  - cbn [uw set_y_h].
+    apply kids_loop_Forall. intros c Hc py a.
+    rewrite Forall_forall in IH. exact (IH c Hc false _ _ _ py a).
+Qed.
